@@ -55,7 +55,21 @@ type Profile struct {
 
 	HostileNames bool // identifier-hostile names
 	LongNames    bool
+
+	// Avoid maps generator avoidance switches (turned on by open known findings) to the
+	// finding id; avoided draws are counted in Schema.Avoided.
+	Avoid map[string]string
 }
+
+func (g *gen) avoid(sw string) bool {
+	if g.p.Avoid != nil && g.p.Avoid[sw] != "" {
+		g.s.Avoided = bump(g.s.Avoided, sw)
+		return true
+	}
+	return false
+}
+
+func sortStrings(s []string) { sort.Strings(s) }
 
 func (p *Profile) feat(name string) bool { return p.Features != nil && p.Features[name] }
 
@@ -73,20 +87,20 @@ func Features(names ...string) map[string]bool {
 }
 
 var (
-	wordsSingle = []string{"id", "name", "title", "count", "total", "price", "status", "kind", "note", "label", "size", "code", "flag", "value", "amount", "owner", "email", "token", "slug", "body"}
-	wordsMulti  = []string{"user_id", "page_size", "api_url", "created_at", "is_active", "zip_code", "first_name", "order_ref", "max_items", "http_code", "retry_after_seconds", "parent_key"}
-	wordsDigits = []string{"field_2", "x1_y", "v2", "line_1", "a1", "b_2c", "item3_ref"}
+	wordsSingle  = []string{"id", "name", "title", "count", "total", "price", "status", "kind", "note", "label", "size", "code", "flag", "value", "amount", "owner", "email", "token", "slug", "body"}
+	wordsMulti   = []string{"user_id", "page_size", "api_url", "created_at", "is_active", "zip_code", "first_name", "order_ref", "max_items", "http_code", "retry_after_seconds", "parent_key"}
+	wordsDigits  = []string{"field_2", "x1_y", "v2", "line_1", "a1", "b_2c", "item3_ref"}
 	wordsHostile = []string{"type", "string", "reset", "descriptor", "proto_message", "foo__bar", "bar_", "get_name", "func", "range", "select", "interface", "url", "handler", "options", "body", "path", "query", "headers", "resp", "req", "err", "result", "ctx", "c", "x", "foo_1bar", "s_3d"}
-	msgWords    = []string{"Item", "Order", "Line", "User", "Profile", "Address", "Config", "Entry", "Detail", "Meta", "Spec", "State", "Payload", "Record", "Shape", "Token", "Batch", "Filter"}
-	msgHostile  = []string{"APIKey", "V2Config", "HTTPSetting", "Foo_Bar", "URLInfo", "ID", "X"}
-	methodWords = []string{"Get", "List", "Create", "Update", "Delete", "Find", "Search", "Put", "Patch", "Sync", "Run", "Fetch"}
-	methodTail  = []string{"", "Item", "Order", "User", "All", "ByID", "URL", "2FA", "V2", "Batch", "State"}
-	svcWords    = []string{"Shop", "User", "Admin", "Catalog", "Billing", "Audit", "Edge"}
-	enumWords   = []string{"Status", "Color", "Level", "Mode", "Tier", "Phase"}
-	enumVals    = []string{"ACTIVE", "INACTIVE", "PENDING", "RED", "GREEN", "LOW", "HIGH", "DONE", "OPEN", "CLOSED"}
-	customVals  = []string{"active", "in-active", "pending approval", "red", "GREEN", "low", "Hi", "done", "open", "x"}
-	pathSegs    = []string{"items", "users", "v1", "orders", "things", "a", "by-id", "data.json", "x_y"}
-	headerNames = []string{"X-API-Key", "X-Request-ID", "X-Tenant-ID", "Authorization", "X-Trace", "Accept-Language", "x-lower-case", "X-Count", "X-Flag", "X-When"}
+	msgWords     = []string{"Item", "Order", "Line", "User", "Profile", "Address", "Config", "Entry", "Detail", "Meta", "Spec", "State", "Payload", "Record", "Shape", "Token", "Batch", "Filter"}
+	msgHostile   = []string{"APIKey", "V2Config", "HTTPSetting", "Foo_Bar", "URLInfo", "ID", "X"}
+	methodWords  = []string{"Get", "List", "Create", "Update", "Delete", "Find", "Search", "Put", "Patch", "Sync", "Run", "Fetch"}
+	methodTail   = []string{"", "Item", "Order", "User", "All", "ByID", "URL", "2FA", "V2", "Batch", "State"}
+	svcWords     = []string{"Shop", "User", "Admin", "Catalog", "Billing", "Audit", "Edge"}
+	enumWords    = []string{"Status", "Color", "Level", "Mode", "Tier", "Phase"}
+	enumVals     = []string{"ACTIVE", "INACTIVE", "PENDING", "RED", "GREEN", "LOW", "HIGH", "DONE", "OPEN", "CLOSED"}
+	customVals   = []string{"active", "in-active", "pending approval", "red", "GREEN", "low", "Hi", "done", "open", "x"}
+	pathSegs     = []string{"items", "users", "v1", "orders", "things", "a", "by-id", "data.json", "x_y"}
+	headerNames  = []string{"X-API-Key", "X-Request-ID", "X-Tenant-ID", "Authorization", "X-Trace", "Accept-Language", "x-lower-case", "X-Count", "X-Flag", "X-When"}
 )
 
 // gen holds generation state for one schema.
@@ -99,10 +113,10 @@ type gen struct {
 	enums    []string // fq names of generated enums
 	enumDefs map[string]*Enum
 	// data messages usable as field types, in creation order
-	msgs     []string
-	msgDefs  map[string]*Message
-	feature  map[string]string // fq message name -> MarshalJSON-generating feature it carries ("" if none)
-	usedShort map[string]bool  // short type names in use (TS/OpenAPI use short names)
+	msgs      []string
+	msgDefs   map[string]*Message
+	feature   map[string]string // fq message name -> MarshalJSON-generating feature it carries ("" if none)
+	usedShort map[string]bool   // short type names in use (TS/OpenAPI use short names)
 }
 
 func (g *gen) bool(label string) bool { return rapid.Bool().Draw(g.t, label) }
@@ -503,12 +517,19 @@ func (g *gen) annotate(m *Message, fq string, c *fieldCtx) {
 		}
 		g.tagf("feat:%s", feat)
 	}
+	structural := func(f string) bool {
+		return strings.Contains(f, "flatten") || strings.Contains(f, "oneof") || strings.Contains(f, "unwrap_root")
+	}
 	can := func(feat string) bool {
 		if !p.feat(feat) {
 			return false
 		}
-		if have() && !p.MultiFeature && g.feature[fq] != feat {
-			return false
+		if have() && g.feature[fq] != feat {
+			// flatten / discriminated oneofs never share a message with another codec feature:
+			// the plugins refuse most such combinations
+			if !p.MultiFeature || structural(feat) || structural(g.feature[fq]) {
+				return false
+			}
 		}
 		return true
 	}
@@ -876,7 +897,13 @@ func (g *gen) buildMethod(f *File, s *Service, m *Method, usedRoutes map[string]
 		g.fillMessage(req, reqFQ, rc)
 	}
 	respC := &fieldCtx{used: map[string]bool{}, multiOK: true}
-	g.fillMessage(resp, respFQ, respC)
+	if !g.unwrapRoot(resp, respFQ) {
+		g.fillMessage(resp, respFQ, respC)
+		g.unwrapMapValue(resp, respFQ, respC)
+	}
+	if bodyVerb {
+		g.unwrapMapValue(req, reqFQ, rc)
+	}
 	if p.Rules {
 		g.addRules(req)
 	}
@@ -1016,4 +1043,82 @@ func (g *gen) addExamples(m *Message) {
 		f.EnsureAnn().Examples = ex
 		g.tagf("examples")
 	}
+}
+
+// ---- unwrap ------------------------------------------------------------------------------
+
+// wrapperMessage creates W{repeated X items = 1 [unwrap]} and returns its fq name.
+func (g *gen) wrapperMessage() string {
+	name := g.uniqueShort(pick(g, []string{"ItemList", "Bars", "Points", "TagList"}, "wrapname"))
+	m := &Message{Name: name}
+	fq := g.s.Pkg + "." + name
+	g.msgDefs[fq] = m
+	g.s.Files[0].Messages = append(g.s.Files[0].Messages, m)
+	f := &Field{Name: pick(g, []string{"items", "values", "bar_list"}, "wrapfield"), Number: 1, Card: Repeated}
+	if g.bool("wrapmsgelem") && len(g.childCandidates()) > 0 {
+		f.Kind, f.TypeRef = KMessage, pick(g, g.childCandidates(), "wrapelem")
+	} else {
+		f.Kind = g.scalarKind()
+	}
+	f.EnsureAnn().Unwrap = true
+	m.Fields = []*Field{f}
+	g.feature[fq] = "unwrap"
+	return fq
+}
+
+// unwrapRoot optionally turns resp into a root-unwrap message (single repeated or map field).
+func (g *gen) unwrapRoot(m *Message, fq string) bool {
+	p := g.p
+	switch {
+	case p.feat("unwrap_root_list") && g.oneIn(4, "f:unwrap_root_list"):
+		f := &Field{Name: pick(g, []string{"items", "results", "data_points"}, "rootfield"), Number: 1, Card: Repeated}
+		if g.bool("rootmsgelem") && len(g.childCandidates()) > 0 {
+			f.Kind, f.TypeRef = KMessage, pick(g, g.childCandidates(), "rootelem")
+		} else {
+			f.Kind = g.scalarKind()
+		}
+		f.EnsureAnn().Unwrap = true
+		m.Fields = []*Field{f}
+		g.feature[fq] = "unwrap_root_list"
+		g.tagf("feat:unwrap_root_list")
+		return true
+	case p.feat("unwrap_root_map") && g.oneIn(4, "f:unwrap_root_map"):
+		f := &Field{Name: pick(g, []string{"entries", "by_key"}, "rootmapfield"), Number: 1, Card: Map, MapKey: KString}
+		if g.oneIn(3, "rootmapkey") {
+			f.MapKey = pick(g, MapKeyKinds, "rootmapkeykind")
+		}
+		switch {
+		case p.feat("unwrap_combined") && g.bool("combined"):
+			f.Kind, f.TypeRef = KMessage, g.wrapperMessage()
+			g.tagf("feat:unwrap_combined")
+		case g.bool("rootmapmsg") && len(g.childCandidates()) > 0:
+			f.Kind, f.TypeRef = KMessage, pick(g, g.childCandidates(), "rootmapval")
+		default:
+			f.Kind = g.scalarKind()
+		}
+		f.EnsureAnn().Unwrap = true
+		m.Fields = []*Field{f}
+		g.feature[fq] = "unwrap_root_map"
+		g.tagf("feat:unwrap_root_map")
+		return true
+	}
+	return false
+}
+
+// unwrapMapValue optionally adds a map field whose value type is an unwrap wrapper.
+func (g *gen) unwrapMapValue(m *Message, fq string, c *fieldCtx) {
+	if !g.p.feat("unwrap_map_value") || !g.oneIn(3, "f:unwrap_map_value") {
+		return
+	}
+	if g.feature[fq] != "" && !g.p.MultiFeature {
+		return
+	}
+	f := &Field{Name: g.fieldName(c.used, c.multiOK), Number: g.nextNum(c), Kind: KMessage, TypeRef: g.wrapperMessage(), Card: Map, MapKey: KString}
+	m.Fields = append(m.Fields, f)
+	if g.feature[fq] == "" {
+		g.feature[fq] = "unwrap_map_value"
+	} else {
+		g.feature[fq] += "+unwrap_map_value"
+	}
+	g.tagf("feat:unwrap_map_value")
 }
